@@ -329,6 +329,15 @@ func judgeRace(report string) (bool, string) {
 		return ""
 	}
 	a, b := top(acc[0]), top(acc[1])
+	// the detector sometimes cannot restore the stack of the older access; the report is then attributed by the side
+	// that is known (and confirmed by replay in a fresh process like every violation)
+	lost := func(blk string) bool { return strings.Contains(blk, "failed to restore the stack") }
+	if a == "" && lost(acc[0]) && b != "" {
+		a = "(stack not restored)"
+	}
+	if b == "" && lost(acc[1]) && a != "" {
+		b = "(stack not restored)"
+	}
 	if a == "" || b == "" {
 		return false, "race outside fox"
 	}
